@@ -472,7 +472,9 @@ impl FilteredReadStream {
         let num_physical_rows = file_fragment.physical_rows().await? as u64;
         let (row_id_sequence, num_logical_rows) = if dataset.manifest.uses_stable_row_ids() {
             let row_id_sequence = load_row_id_sequence(dataset.as_ref(), &frag).await?;
-            let num_logical_rows = row_id_sequence.len();
+            // Deleted rows keep their place in the row id sequence: its length is the
+            // number of physical rows, not of the rows a scan returns.
+            let num_logical_rows = file_fragment.count_rows(None).await? as u64;
             (row_id_sequence, num_logical_rows)
         } else {
             let row_ids_start = frag.id << 32;
